@@ -260,6 +260,23 @@ impl Pools {
 // JSON trees (value domain restricted as C14 states: exact short decimals, no NaN/inf)
 // ------------------------------------------------------------------------------------------
 pub fn json_scalar(rng: &mut Rng) -> Value {
+    // now and then: number forms and strings with a special place in JSON / JavaScript
+    if rng.chance(1, 12) {
+        return match rng.below(12) {
+            0 => json!(100.0),                // prints 100.0, reads back a float
+            1 => json!(-0.0),
+            2 => json!(1e21),                 // prints 1e21
+            3 => json!(1e-7),
+            4 => json!(9007199254740993u64),  // 2^53 + 1: exact as an integer, not as a double
+            5 => json!(-9007199254740993i64),
+            6 => json!(9223372036854775808u64), // i64::MAX + 1
+            7 => json!("\u{2028}line\u{2029}sep"),
+            8 => json!("</script>\u{7f}\u{85}/\\/"),
+            9 => json!("\u{feff}bom-first"),
+            10 => json!("1e2"),
+            _ => json!("\\u0041 \\n literal backslashes"),
+        };
+    }
     match rng.below(14) {
         0 => Value::Null,
         1 => json!(true),
